@@ -42,6 +42,7 @@ def run(ctx):
         rule_sink_sequential(ctx, "C11.O", fv, "cgr::vectorise")
         rule_flush_pairing(ctx, "C11.O", fv, "cgr::vectorise")
         point_text(ctx, "C11.O", fv, "cgr::vectorise", "({},{})", 2)
+        error_discipline(ctx, "C11.E", fv, "cgr::vectorise", "composition::cgr::CgrComputer::vectorise_one")
     from . import c06
     c06.reader_deps(ctx, "C11")
 
@@ -195,3 +196,31 @@ def point_text(ctx, rule, fv, who, template, nargs):
     okr = len(rows) == 1 and rows[0][1][2][0][0] == "call" and rows[0][1][2][0][1].endswith("::join") and rows[0][1][2][0][3] == L(" ")
     ctx.check(rule, "%s:row_text" % who, okr, "row = points joined by a space + newline",
               "row is not `points.join(\" \")` + newline", line_of(rows[0][0]) if rows else fv.fn["sp"])
+
+
+
+def error_discipline(ctx, rule, fv, who, one):
+    """The rejection of a record (Err from vectorise_one) must not be lost on its way out of the file writer:
+    the Result is unwrapped/expected/`?`-propagated where it is produced, no Result-typed statement is discarded,
+    and no Result is assigned to a variable inside a loop (a later Ok would overwrite an earlier Err)."""
+    calls = fv.calls_to(one)
+    bad = None
+    for c in calls:
+        par = fv.parent.get(id(c))
+        okc = par is not None and ((par.get("k") == "mcall" and cname(par).split("::")[-1] in ("unwrap", "expect"))
+                                   or par.get("k") == "try")
+        if not okc:
+            bad = ("the Result of %s is neither unwrapped nor `?`-propagated where it is produced" % one.split("::")[-1], c)
+    for n in fv.nodes:
+        if n.get("k") == "semi" and n["e"].get("ty", "").startswith("std::result::Result<") and n["e"].get("k") in ("call", "mcall"):
+            bad = ("a Result-typed statement `%s` is discarded: an error (e.g. a rejected record) would go unnoticed"
+                   % show(fv.term(n["e"]))[:120], n["e"])
+        if n.get("k") == "assign" and n["r"].get("ty", "").startswith("std::result::Result<") \
+                and fv.enclosing(n, ("for", "while", "loop")) is not None:
+            gs = [show(fv.term(g)) for g, pol in fv.guards(n)]
+            if not any("is_ok" in g or "is_err" in g for g in gs):
+                bad = ("a Result is assigned to `%s` inside a loop: a later successful batch overwrites an earlier "
+                       "rejection, which then never reaches the caller" % show(fv.term(n["l"])), n)
+    ctx.check(rule, "%s:rejection_not_lost" % who, bad is None and len(calls) >= 1,
+              "every Err of the per-record routine is unwrapped or propagated; no Result is dropped or overwritten",
+              bad[0] if bad else "no call of the per-record routine found", line_of(bad[1]) if bad else fv.fn["sp"])
